@@ -159,6 +159,7 @@ def first_judgement(case, pcs, out, d):
 
 
 def run_cases(ctx, cases, attribute=True):
+    K.preload()
     outs = run_pool(K.impl, cases, timeout=K.SAT_TIMEOUT + 20.0)
     pcss, replies = K.run_model(cases, outs, mode=2)
     pending = []  # (case, klass, what, rep)
